@@ -495,14 +495,15 @@ theorem promptForFilepath_kp : ∀ n, KP (promptForFilepath n)
 
 theorem makeBackupFor_kp (o : Options) (p : Bytes) : KP (makeBackupFor o p) :=
   makeBackupFor_spec good_kp o p (fun _ _ => rfl) (ensureParentDirs_kp _) (fun _ _ => KP.doOp _) (fun _ => KP.doOp _)
-theorem openRejects_kp (rej : Bytes) : KP (openRejects rej) :=
-  openRejects_spec good_kp rej (fun _ _ => rfl) (fun _ => KP.doOp _)
-theorem writeRejects_kp (rej b : Bytes) : KP (writeRejects rej b) := by
+    (fun _ => KP.doOp _)
+theorem openRejects_kp (o : Options) (rej : Bytes) : KP (openRejects o rej) :=
+  openRejects_spec good_kp o rej (fun _ _ => rfl) (fun _ => KP.doOp _) (fun _ => KP.doOp _)
+theorem writeRejects_kp (o : Options) (rej b : Bytes) : KP (writeRejects o rej b) := by
   have := openRejects_kp
   unfold writeRejects; spec_walk good_kp
 
 macro_rules | `(tactic| spec_leaf $_) => `(tactic| with_reducible first
-  | exact promptForFilepath_kp _ | exact makeBackupFor_kp _ _ | exact openRejects_kp _ | exact writeRejects_kp _ _)
+  | exact promptForFilepath_kp _ | exact makeBackupFor_kp _ _ | exact openRejects_kp _ _ | exact writeRejects_kp _ _ _)
 
 theorem writePatchedResult_kp (o : Options) (p : Patch) (f : Bytes) (perm : PermResult) (sb : Bool) (c : Bytes) :
     KP (writePatchedResult o p f perm sb c) := by
@@ -535,7 +536,7 @@ macro_rules | `(tactic| kp_leaf) => `(tactic| with_reducible first
   | exact writeFile_kp _ _ | exact ensureParentDirs_kp _ | exact permissionCallback_kp _ _ _
   | exact removeFileAndEmptyParents_kp _ | exact fixPermissionsIfNeeded_kp _ _
   | exact guessFilepath_kp _ _ | exact checkWithUser_kp _ _ | exact makeWritable_kp _ _
-  | exact promptForFilepath_kp _ | exact makeBackupFor_kp _ _ | exact openRejects_kp _ | exact writeRejects_kp _ _
+  | exact promptForFilepath_kp _ | exact makeBackupFor_kp _ _ | exact openRejects_kp _ _ | exact writeRejects_kp _ _ _
   | exact writePatchedResult_kp _ _ _ _ _ _ | exact refuseToPatch_kp _ _ _ | exact finalizeDeferred_kp _
   | exact Spec.fsExists good_kp _
   | exact Spec.fsIsRegular good_kp _
